@@ -76,6 +76,9 @@ def run(ctx):
                  "Q5": "corner variant: members[argmax(rank_corners_triangle(points, members))], one append per cluster",
                  "Q6": "emitted values are elements of the knees argument", "Q7": "hull path links"}.items():
         res.rule(k, v)
+    from .common import borrow
+    from .common import hidden_state
+    hidden_state(rc, "Q8", ["postprocessing.filter_clusters", "postprocessing.filter_clusters_corners"], "cluster filtering")
     from .c13 import check_short_input
     check_short_input(rc, "Q2", rc.func("postprocessing.filter_clusters"),
                       extra_args=lambda e: {"clustering": e.symbol("clustering"), "t": e.symbol("t"), "method": Obj("enum", "ClusterRanking.linear")})
@@ -130,6 +133,8 @@ def _filter_clusters(rc: RuleCtx, mode: str):
         raise AnalysisError("filter_clusters: cannot identify the output list")
     L = outs[0]
     benv[L] = ev.symbol(L + "@list")
+    from .common import carry
+    carry(ev, loop, env, benv)
     try:
         out = ev.eval_loop_body(fi, loop, benv)
     except Unsupported as e:
@@ -230,6 +235,8 @@ def _corners(rc: RuleCtx):
     benv[loop.target.id] = i
     L = [n for n, v in env.items() if isinstance(v, Vec) and v.kind == "list"][0]
     benv[L] = ev.symbol(L + "@list")
+    from .common import carry
+    carry(ev, loop, env, benv)
     out = ev.eval_loop_body(fi, loop, benv)
     apps = [e for e in out.events if e.kind == "append" and e.target == L]
     members = anf.opaque("mask", knees, anf.opaque("bool", extra=repr(compare("==", clusters, i).key)), array=True)
@@ -311,6 +318,8 @@ def _smooth_ranking(rc: RuleCtx):
         for n, v in list(benv.items()):
             if isinstance(v, Vec) and v.kind == "list":
                 benv[n] = ev.symbol(n + "@list")
+        from .common import carry
+        carry(ev, loop, env, benv)
         out = ev.eval_loop_body(fi, loop, benv)
         app_events = [e for e in out.events if e.kind == "append"]
         # a float array preallocated with np.zeros(len(knees)) and filled at the loop position collects the same values
